@@ -785,6 +785,9 @@ fn case_pair(c: &mut Cur) -> Result<Vec<W>, BadCase> {
             Err(()) => return Ok(vec![-3]),
         }
     }
+    if calls.iter().skip_while(|(k, _)| *k == 3).any(|(k, _)| *k == 3) {
+        return Err(BadCase);
+    }
     let nops = c.n()?;
     let mut ops = vec![];
     for _ in 0..nops {
@@ -805,13 +808,19 @@ fn case_pair(c: &mut Cur) -> Result<Vec<W>, BadCase> {
     let r = std::panic::catch_unwind(std::panic::AssertUnwindSafe(|| {
         let mut out: Vec<W> = vec![];
         {
-            let sw = ShapeWriter::with_shx(&mut shp, &mut shx);
+            let mut sw = ShapeWriter::with_shx(&mut shp, &mut shx);
+            out.push(calls.len() as W);
+            // kind 3 (a prefix): written through the bare ShapeWriter before it is wrapped into the complete writer
+            let npre = calls.iter().take_while(|(k, _)| *k == 3).count();
+            for (_, s) in calls.iter().take(npre) {
+                let r = with_concrete!(s, x => sw.write_shape(x), unreachable!());
+                render_unit_res(&r, &mut out);
+            }
             let tw = dbase::TableWriterBuilder::new()
                 .add_numeric_field("idx".try_into().unwrap(), 10, 0)
                 .build_with_dest(&mut dbf);
             let mut w = Writer::new(sw, tw);
-            out.push(calls.len() as W);
-            for (i, (kind, s)) in calls.iter().enumerate() {
+            for (i, (kind, s)) in calls.iter().enumerate().skip(npre) {
                 let mut rec = dbase::Record::default();
                 match kind {
                     0 => { rec.insert("idx".to_string(), dbase::FieldValue::Numeric(Some(i as f64))); }
@@ -1148,6 +1157,67 @@ fn case_path(c: &mut Cur) -> Result<Vec<W>, BadCase> {
     Ok(out)
 }
 
+/// Kind 17: the complete reader on given files.  [shp bytes; has_shx 0|1; shx bytes (if has_shx); nrows; nops; ops as in
+/// kind 9]: a table of nrows rows (idx = 0..nrows-1) is written in memory with dbase, then
+/// `Reader::new(ShapeReader::with_shx | new, dbase::Reader)` runs the ops.  -> as the reader part of kind 9.
+const K_PAIR_FILE: W = 17;
+
+fn case_pair_file(c: &mut Cur) -> Result<Vec<W>, BadCase> {
+    use std::convert::TryInto;
+    use std::io::Cursor;
+    let shp = read_bytes(c)?;
+    let has_shx = c.next()? == 1;
+    let shx = if has_shx { read_bytes(c)? } else { vec![] };
+    let nrows = c.n()?;
+    let nops = c.n()?;
+    let mut ops = vec![];
+    for _ in 0..nops {
+        ops.push(match c.next()? {
+            0 => ROp::Iter(c.next()?),
+            2 => ROp::Seek(c.next()?),
+            3 => ROp::Count,
+            6 => ROp::ReadAll,
+            _ => return Err(BadCase),
+        });
+    }
+    if !c.at_end() {
+        return Err(BadCase);
+    }
+    let mut dbf = Cursor::new(Vec::<u8>::new());
+    {
+        let mut tw = dbase::TableWriterBuilder::new()
+            .add_numeric_field("idx".try_into().unwrap(), 10, 0)
+            .build_with_dest(&mut dbf);
+        for i in 0..nrows {
+            let mut rec = dbase::Record::default();
+            rec.insert("idx".to_string(), dbase::FieldValue::Numeric(Some(i as f64)));
+            tw.write_record(&rec).map_err(|_| BadCase)?;
+        }
+    }
+    let dbf = dbf.into_inner();
+    let rr = std::panic::catch_unwind(std::panic::AssertUnwindSafe(move || -> Vec<W> {
+        let mut o: Vec<W> = vec![];
+        let sr = if has_shx {
+            ShapeReader::with_shx(Cursor::new(shp), Cursor::new(shx))
+        } else {
+            ShapeReader::new(Cursor::new(shp))
+        };
+        let sr = match sr {
+            Ok(r) => r,
+            Err(e) => { o.push(1); render_error(&e, &mut o); return o; }
+        };
+        let dr = match dbase::Reader::new(Cursor::new(dbf)) {
+            Ok(r) => r,
+            Err(_) => { o.extend([1, 11]); return o; }
+        };
+        o.push(0);
+        let mut reader = Reader::new(sr, dr);
+        run_pair_ops(&mut reader, &ops, &mut o);
+        o
+    }));
+    Ok(rr.unwrap_or_else(|_| vec![2]))
+}
+
 fn run_case(v: &[W]) -> Vec<W> {
     let mut c = Cur::new(v);
     let r = match c.next() {
@@ -1162,6 +1232,7 @@ fn run_case(v: &[W]) -> Vec<W> {
         Ok(K_COPY) => case_copy(&mut c),
         Ok(K_PAIR_ALLOC) => case_pair_alloc(&mut c),
         Ok(K_PATH) => case_path(&mut c),
+        Ok(K_PAIR_FILE) => case_pair_file(&mut c),
         _ => Err(BadCase),
     };
     match r {
